@@ -125,6 +125,10 @@ func Convert(graph gdbi.GraphInterface, dataType gdbi.DataType, markTypes map[st
 				//TODO: doing single vertex queries is slow.
 				// Need to rework this to do batched queries
 				ve = graph.GetVertex(ve.ID, true)
+				if ve == nil {
+					//element was removed while the traversal was running
+					return &gripql.QueryResult{Result: &gripql.QueryResult_Vertex{}}
+				}
 			}
 			return &gripql.QueryResult{
 				Result: &gripql.QueryResult_Vertex{
@@ -140,6 +144,9 @@ func Convert(graph gdbi.GraphInterface, dataType gdbi.DataType, markTypes map[st
 		if ee != nil {
 			if !ee.Loaded {
 				ee = graph.GetEdge(ee.ID, true)
+				if ee == nil {
+					return &gripql.QueryResult{Result: &gripql.QueryResult_Edge{}}
+				}
 			}
 			return &gripql.QueryResult{
 				Result: &gripql.QueryResult_Edge{
@@ -164,7 +171,9 @@ func Convert(graph gdbi.GraphInterface, dataType gdbi.DataType, markTypes map[st
 			case gdbi.VertexData:
 				var ve *gripql.Vertex
 				if !v.Loaded {
-					ve = graph.GetVertex(v.ID, true).ToVertex()
+					if lv := graph.GetVertex(v.ID, true); lv != nil {
+						ve = lv.ToVertex()
+					}
 				} else {
 					ve = v.ToVertex()
 				}
@@ -176,7 +185,9 @@ func Convert(graph gdbi.GraphInterface, dataType gdbi.DataType, markTypes map[st
 			case gdbi.EdgeData:
 				var ee *gripql.Edge
 				if !v.Loaded {
-					ee = graph.GetEdge(ee.Gid, true).ToEdge()
+					if le := graph.GetEdge(v.ID, true); le != nil {
+						ee = le.ToEdge()
+					}
 				} else {
 					ee = v.ToEdge()
 				}
